@@ -14,6 +14,7 @@ import (
 	"fmt"
 	"strings"
 
+	"github.com/sourcenetwork/defradb/client"
 	"github.com/sourcenetwork/defradb/internal/core"
 	"github.com/sourcenetwork/defradb/internal/keys"
 	"github.com/sourcenetwork/defradb/internal/planner/mapper"
@@ -220,8 +221,26 @@ func join(
 func generateKey(doc core.Doc, keyFields []mapper.Field) string {
 	keyBuilder := strings.Builder{}
 	for _, keyField := range keyFields {
-		keyBuilder.WriteString(fmt.Sprint(keyField.Index))
-		keyBuilder.WriteString(fmt.Sprintf("_%v_", doc.Fields[keyField.Index]))
+		// Every part of the key carries the kind of the value and its length, so that different
+		// values (null and the string "<nil>", the JSON values 1 and "1") and different
+		// combinations of values never produce the same key.
+		var part string
+		switch v := doc.Fields[keyField.Index].(type) {
+		case nil:
+			part = "n"
+		case string:
+			part = "s" + v
+		case client.JSON:
+			b, err := v.MarshalJSON()
+			if err != nil {
+				part = fmt.Sprintf("v%v", v)
+			} else {
+				part = "j" + string(b)
+			}
+		default:
+			part = fmt.Sprintf("v%v", v)
+		}
+		keyBuilder.WriteString(fmt.Sprintf("%d_%d:%s_", keyField.Index, len(part), part))
 	}
 	return keyBuilder.String()
 }
